@@ -78,6 +78,10 @@ type NodeSpec struct {
 	Chains     []string
 	URL        string
 	Delegators map[string]uint32
+	// JailedAtGenesis (genesis nodes only): the genesis file lists the validator as staked AND jailed (what an export of
+	// a chain with a jailed node contains); its stake belongs to the staking pool, it is outside the validator set, and it
+	// may unjail at once (no signing info in the genesis file: JailedUntil is the zero time)
+	JailedAtGenesis bool
 }
 
 type AppSpec struct {
@@ -270,6 +274,7 @@ func BuildGenesis(spec *Spec) app.GenesisState {
 		if n.Output != nil {
 			v.OutputAddress = Addr(n.Output)
 		}
+		v.Jailed = n.JailedAtGenesis
 		ng.Validators = append(ng.Validators, v)
 	}
 	gs[nodesTypes.ModuleName] = cdc.MustMarshalJSON(ng)
